@@ -20,6 +20,7 @@ EXPLANATION = (
     "a working variable holding scheme data is not carried from one pair into the next unless it is an accumulator "
     "read after the loop. "
     "Decides these structural necessary conditions only, not the algebra.")
+EXPLANATION += (" Shared rules: R1 / R15 (the batching combiner of the five combining verifiers is live and re-drawn per query), R5i (no verifier extends the claims map), R4s (no positional pairing after an element-dropping adaptor on one side), R17 (a vector a verifier de-duplicates has been sorted).")
 RULE = ("instances = verifier anchors x {values, point, commitment fields}; container-typed parameters are followed "
         "to the element locals extracted from them (payload mode); an instance holds iff OUTCOME is reachable; "
         "non-trivial = the source exists in the analysed bodies")
@@ -34,6 +35,7 @@ def run(rep, ctx, tier):
     for k in missing:
         rep.add("R1", "%s:anchor" % k, False, "verifier anchor %s not found in the crate (fail closed)" % k, None)
     rep.count("anchors[%s]" % ctx.cfg, len(anchors))
+    scope_union = set()
     for a in anchors:
         g = ctx.graph(a)
         rep.count("bodies_in_scope", len(g.scope))
@@ -45,6 +47,10 @@ def run(rep, ctx, tier):
         rep.count("values_extracted_in_loops", R1D.run_values(rep, ctx, a, "R1d"))
         # a verdict (or any other per-claim result) computed per loop iteration is accumulated, not overwritten
         rep.count("bodies_with_loops", R1D.run_last_value(rep, ctx, a, "R1L"))
+        from . import c05 as C05
+        if a.key in C05.COMBINING:
+            # a batched false claim is caught only if the combiner is live and re-drawn per query (shared with C05)
+            C05.combiner_rules(rep, ctx, a, a.key)
         if a.key in PER_CLAIM_LOOPS:
             # the verifiers that decide one (commitment, value) pair per loop iteration: apart from the sponge, nothing
             # that holds scheme data survives from one pair into the next unless it is an accumulator read after the loop
@@ -57,6 +63,18 @@ def run(rep, ctx, tier):
             # the claim of every query is looked up: the lookups are driven by the query set
             from ..rules import visited as R5V
             rep.count("claim lookups", R5V.run(rep, ctx, a, "R5v"))
+            # no verifier adds entries to (a copy of) the claims it was handed (shared with C17)
+            from ..rules import noinsert as R5I
+            R5I.run(rep, ctx, a, "R5i")
+            # no positional pairing after an element-dropping adaptor (shared with C03)
+            from ..rules import lenguard as R4
+            R4.run_shifted_pairing(rep, ctx, a, "R4s")
+            scope_union.update(g.scope)
             # queries are never de-duplicated by label alone
             from ..rules import dedup as R5K
             R5K.run(rep, ctx, a, "R5k")
+    # what a batch / combination verifier de-duplicates or binary-searches has been sorted (shared with C04 / C16): a
+    # `dedup` on claims that are not sorted by the de-duplication key drops claims that merely neighbour an equal key
+    from ..rules import sorted as R17
+    rep.count("R17 dedup sites", R17.run_dedup(rep, ctx, scope_union, "R17"))
+
